@@ -617,6 +617,11 @@ func TestC05Directed(t *testing.T) {
 							{K: "policy", Cmd: second % 4, Auth: strong.Auth, Enc: strong.Enc, Integ: strong.Integ},
 							{K: "run", Cmd: first, Kind: kind, Keep: true, Say: say}, {K: "follow", Cmd: second, Keep: true}, {K: "follow", Cmd: first},
 							{K: "resume", Cmd: second, Kind: kind}, {K: "sidonly", Cmd: second, Kind: kind}}})
+						// the follow-on on a RESUMED, kept-alive connection: resume with the weak command, then ask for the strong one
+						cases = append(cases, Case{Ops: []Op{
+							{K: "policy", Cmd: second % 4, Auth: strong.Auth, Enc: strong.Enc, Integ: strong.Integ},
+							{K: "run", Cmd: first, Kind: kind, Say: say}, {K: "resume", Cmd: first, Kind: kind, Keep: true},
+							{K: "follow", Cmd: second, Keep: true}, {K: "follow", Cmd: first}}})
 					}
 				}
 			}
